@@ -446,3 +446,134 @@ PROPS["C13"] = {
     "bounds": {"quick": "as C12 (configurations with a slow or late consumer)", "thorough": "as C12"},
     "outside": "as C12",
 }
+
+
+def pk_cfgs(tier):
+    q = tier == "quick"
+    C = {}
+    C["r11"] = dict(recipe=(1, 1), n_pallets=2)
+    C["r12"] = dict(recipe=(1, 2), n_pallets=2)
+    C["r111"] = dict(recipe=(1, 1, 1), n_pallets=2, sym=("ii", "pd"))
+    C["r12-cap1"] = dict(recipe=(1, 2), n_pallets=2, item_cap=1, sym=("ii", "pd"))
+    C["r11-rr2"] = dict(recipe=(1, 1), n_pallets=2, split_out=2, split_sel="ROUND_ROBIN", sym=("ii", "pd"))
+    C["r12-fa2"] = dict(recipe=(1, 2), n_pallets=2, split_out=2, sym=("ii", "pd"), out_delay="sym")
+    C["r12-nonblocking"] = dict(recipe=(1, 2), n_pallets=2, blocking=False, out_delay="sym", sym=("ii", "pd"))
+    C["r11-idx"] = dict(recipe=(1, 1), n_pallets=2, split_out=2, split_sel=1, sym=("ip", "pd"))
+    C["r12-comb-only"] = dict(recipe=(1, 2), n_pallets=2, comb_only=True, out_delay="sym")
+    if not q:
+        C["r122"] = dict(recipe=(1, 2, 2), n_pallets=2, sym=("ii", "pd"))
+        C["r12-3pallets"] = dict(recipe=(1, 2), n_pallets=3)
+        C["r11-gen2"] = dict(recipe=(1, 1), n_pallets=2, split_out=2, split_sel="generator", sym=("ii", "pd"))
+    return C
+
+
+def pk_jobs(pid, tier, names=None, extra_kw=None):
+    jobs = []
+    for name, cfg in pk_cfgs(tier).items():
+        if names is not None and name not in names:
+            continue
+        kw = dict(cfg)
+        kw.update(extra_kw or {})
+        kw["props"] = (pid,)
+        jobs.append({"name": "M2/pk/" + name, "spec": ("vfy.m2p", "pk", kw), "budget_s": 15 if tier == "quick" else 150, "bounds": str(cfg), "validate_every": 10})
+    return jobs
+
+
+PROPS["C16"] = {
+    "explanation": M2_EXPL + "topology: pallet source and item source(s) -> Combiner(recipe) -> buffer -> Splitter -> buffer(s) -> sink(s); arrival gaps of pallets and of every ingredient, "
+                   "packing and unpacking delays are symbolic (items before pallets, starvation of one ingredient, ties). At every put on the combiner's out-edge the object must be a pallet taken "
+                   "from in-edge 0 carrying exactly recipe[i] items taken from in-edge i for that pallet and nothing else; for each pallet the splitter takes, the subsequent puts must be its items, each "
+                   "once, then the emptied pallet (drops in non-blocking mode must be counted); nothing else may be emitted.",
+    "jobs": lambda tier: pk_jobs("C16", tier),
+    "required_witnesses": ["C16:combiner-output-checked", "C16:splitter-output-checked"],
+    "nontrivial_witnesses": ["complete"],
+    "twin": lambda tier: ("vfy.m2p", "pk", dict(props=("C16",), recipe=(1, 1), n_pallets=1, twin=True)),
+    "bounds": {"quick": "recipes (1,1) (1,2) (1,1,1), 2 pallets, 1-2 splitter out-edges with FIRST_AVAILABLE / ROUND_ROBIN / constant policy, blocking and non-blocking",
+               "thorough": "also (1,2,2), 3 pallets, generator policy"},
+    "outside": "recipe entries 0 (the combiner crashes on them: not a documented use), more than 3 in-edges",
+}
+
+# the pallet scenarios also serve C03 / C08 / C17
+_c03_jobs = PROPS["C03"]["jobs"]
+PROPS["C03"]["jobs"] = lambda tier: _c03_jobs(tier) + pk_jobs("C03", tier, names=["r11", "r12", "r11-rr2", "r12-nonblocking", "r12-comb-only"])
+_c08_jobs = PROPS["C08"]["jobs"]
+PROPS["C08"]["jobs"] = lambda tier: _c08_jobs(tier) + pk_jobs("C08", tier, names=["r11", "r12", "r111", "r11-rr2"])
+PROPS["C08"]["required_witnesses"] = PROPS["C08"]["required_witnesses"] + ["C08:combiner-residence-checked"]
+_c17_jobs = PROPS["C17"]["jobs"]
+PROPS["C17"]["jobs"] = lambda tier: _c17_jobs(tier) + pk_jobs("C17", tier, names=["r11", "r12", "r11-rr2", "r12-fa2"], extra_kw={"until": "sym"}) + pk_jobs(
+    "C17", tier, names=["r11"], extra_kw={"until": "sym", "setup": 1})
+PROPS["C17"]["required_witnesses"] = PROPS["C17"]["required_witnesses"] + ["C17:finalised@Splitter", "C17:finalised@Combiner"]
+
+
+def combo_cfgs(tier):
+    q = tier == "quick"
+    kinds = ["buffer", "fleet", "sconv", "cconv"]
+    C = {}
+
+    def light(cfg):
+        # periodic components (fleet timer, slotted conveyor ticker) interleave with every symbolic time: keep those runs small
+        if any(cfg.get(k) in ("fleet", "sconv") for k in ("e1", "e2")):
+            cfg.setdefault("sym", ("pd",))
+            cfg.setdefault("n_items", 2)
+        return cfg
+    for a in kinds:
+        for b in kinds:
+            C[f"{a}-{b}"] = light(dict(e1=a, e2=b))
+    for b in kinds:
+        C[f"nbmachine-buffer-{b}"] = light(dict(e1="buffer", e2=b, blocking=False))
+        C[f"nbmachine-rr-{b}"] = light(dict(e1="buffer", e2=b, blocking=False, out_sel="ROUND_ROBIN", n_out=2))
+    for a in kinds:
+        C[f"nbsource-fa-{a}"] = light(dict(e1=a, e2="buffer", src_blocking=False, src_sel="FIRST_AVAILABLE"))
+        C[f"nbsource-idx-{a}"] = light(dict(e1=a, e2="buffer", src_blocking=False))
+    for a in kinds:
+        C[f"w2-2src-{a}"] = light(dict(e1=a, e2=a, w=2, n_src=2, n_items=2))
+    C["edges-first-buffer-cconv"] = dict(e1="buffer", e2="cconv", order="edges-first")
+    C["edges-first-cconv-buffer"] = dict(e1="cconv", e2="buffer", order="edges-first", w=2)
+    C["rr-in-buffer"] = dict(e1="buffer", e2="buffer", n_src=2, in_sel="ROUND_ROBIN", n_items=2)
+    C["rr-out-cconv"] = dict(e1="buffer", e2="cconv", n_out=2, out_sel="ROUND_ROBIN")
+    C["fa-2out-cconv-w2"] = dict(e1="buffer", e2="cconv", n_out=2, w=2, n_src=2, n_items=2)
+    C["zero-buffer-delay"] = dict(e1="buffer", e2="buffer", sym=("iat", "pd", "ed"))
+    C["nonacc-cconv"] = dict(e1="cconv", e2="cconv", acc=0)
+    C["nonacc-sconv"] = light(dict(e1="sconv", e2="buffer", acc=0))
+    if not q:
+        for a in kinds:
+            for b in kinds:
+                C[f"w2-{a}-{b}"] = light(dict(e1=a, e2=b, w=2, n_src=2, n_items=2))
+                C[f"nb-{a}-{b}"] = light(dict(e1=a, e2=b, blocking=False, src_blocking=False))
+        for b in kinds:
+            C[f"fa-2out-{b}"] = light(dict(e1="buffer", e2=b, n_out=2, w=2, n_src=2, n_items=2))
+            C[f"edges-first-{b}"] = light(dict(e1=b, e2=b, order="edges-first"))
+    return C
+
+
+def _jobs_c20(tier):
+    q = tier == "quick"
+    jobs = []
+    for name, cfg in combo_cfgs(tier).items():
+        kw = dict(cfg)
+        kw["props"] = ("C20",)
+        periodic = any(cfg.get(k) in ("fleet", "sconv") for k in ("e1", "e2"))
+        jobs.append({"name": "M2/combo/" + name, "spec": ("vfy.m2s", "combo", kw), "budget_s": (6 if periodic else 10) if q else 60, "bounds": str(cfg), "validate_every": 25})
+    for name in ["r11", "r12-nonblocking", "r11-rr2"]:
+        kw = dict(pk_cfgs(tier)[name])
+        kw["props"] = ("C20",)
+        jobs.append({"name": "M2/pk/" + name, "spec": ("vfy.m2p", "pk", kw), "budget_s": 10 if q else 60, "bounds": str(kw)})
+    jobs.append({"name": "M0/invalid-configurations", "spec": ("vfy.m0", "ctor_scenario", {}), "budget_s": 20, "bounds": "22 kinds of invalid configuration, offending values symbolic where numeric"})
+    return jobs
+
+
+PROPS["C20"] = {
+    "explanation": M2_EXPL + "here as a product of component combinations Source -> E1 -> Machine -> E2 -> Sink with E1, E2 in {Buffer, Fleet, slotted conveyor, continuous conveyor}, "
+                   "blocking / non-blocking source and machine, FIRST_AVAILABLE / ROUND_ROBIN / constant policies, work_capacity 1-2, 1-2 sources and sinks, both construction orders, plus "
+                   "Combiner/Splitter lines; all delays range over [0, d] so zero delays and ties are reachable. Any exception leaving env.step() is a violation (CRASH:<type>@<site>), as are more than "
+                   "1200 kernel events in one simulated instant (zero-time livelock) and a decreasing clock. M0: 22 kinds of invalid configuration (non-positive capacity, unknown mode, negative delays, "
+                   "non-blocking source with zero inter-arrival time, nodes without their edges, out-of-range constant indices; offending numbers symbolic) must raise at construction or at start-up.",
+    "jobs": _jobs_c20,
+    "crash_is_violation": True,
+    "required_witnesses": ["C20:run-completed", "C20:invalid-config-checked"],
+    "nontrivial_witnesses": ["complete"],
+    "twin": lambda tier: ("vfy.m2s", "combo", dict(props=("C20",), n_items=1, twin=True)),
+    "bounds": {"quick": "45 component combinations + 3 pallet lines, <=3 items per source (2 with periodic components), 1-3 symbolic delays in [0,2]",
+               "thorough": "85 combinations"},
+    "outside": "Splitter/Combiner next to Fleet or conveyor edges (rejected by the library with 'Unsupported edge type' under some policies); graphs with cycles; RANDOM policy",
+}
